@@ -504,6 +504,14 @@ type connectError struct {
 func (s *clientSocket) onConnectError(_ *parser.PacketHeader, decode parser.Decode) {
 	s.destroy()
 
+	// The server refused the namespace: the socket is neither connected nor waiting for a
+	// reply anymore. Left in the pending state, a later Disconnect would still send a
+	// DISCONNECT packet for this namespace, and the server closes the whole connection
+	// (with every other namespace on it) when it gets a packet for a namespace it didn't admit.
+	s.stateMu.Lock()
+	s.state = clientSocketConnStateDisconnected
+	s.stateMu.Unlock()
+
 	var v *connectError
 	vt := reflect.TypeOf(v)
 	values, err := decode(vt)
